@@ -410,10 +410,20 @@ fn main() {
 			ns.retain(|n| *n <= 8 || n % 32 == 0 || *n + 1 >= maxn);
 		}
 		h.go(
-			&AffSys { name: format!("{kind}/affine+range/deviation"), kind, ns, v0s: vec![1.0, -3.0], alphabet: vec![0.0, 1.0, -3.0, alpha::big() as V, 1.7], flat: true },
-			&Limits::deviation(if thorough { 2 } else { 1 }, 800).wall_secs(600),
+			&AffSys { name: format!("{kind}/affine+range/deviation"), kind, ns: ns.clone(), v0s: vec![1.0, -3.0], alphabet: vec![0.0, 1.0, -3.0, alpha::big() as V, 1.7], flat: true },
+			&Limits::deviation(1, 800).wall_secs(600),
 			true,
 		);
+		if thorough {
+			// two deviations: small lengths and the boundary lengths (a state of this product holds 11 instances
+			// with their windows; every length with two deviations took 6 minutes per kind)
+			let ns2: Vec<usize> = ns.iter().copied().filter(|n| *n <= 24 || [63, 64, 127, 128].contains(n) || *n + 1 >= maxn).collect();
+			h.go(
+				&AffSys { name: format!("{kind}/affine+range/deviation-2"), kind, ns: ns2, v0s: vec![1.0, -3.0], alphabet: vec![0.0, 1.0, -3.0, alpha::big() as V, 1.7], flat: true },
+				&Limits::deviation(2, 800).wall_secs(600),
+				true,
+			);
+		}
 		if ma_is_linear(kind) {
 			let mut pairs = vec![];
 			for a in &arith[..4] {
